@@ -92,6 +92,7 @@ Purity     == Stateless("purity", PurityOK(E))
 Instances  == Stateless("instances", InstancesOK(E))
 
 Lookup     == Stateless("lookup", LookupOK(E))
+LookupSteps == Stateless("lookupsteps", LookupStepsOK(E))
 Interior1  == Stateless("interior1", Interior1OK(E))
 Interior2  == Stateless("interior2", Interior2OK(E))
 Centre     == Stateless("centre", CentreOK(E))
@@ -129,7 +130,7 @@ TraceNext ==
   \/ QuintMap \/ QuintMapPin \/ Call
   \/ ProjStep \/ Pair \/ Purity \/ Instances
   \/ FaceCentre \/ FaceAngle \/ Nearest \/ FrameCells \/ FrameEnd \/ Reflected \/ Sector \/ GoldenGeom \/ GoldenLookup
-  \/ Lookup \/ Interior1 \/ Interior2 \/ Centre \/ Owners \/ LocalMesh \/ MeshCells \/ MeshEnd \/ Area \/ AreaMeta \/ Boundary \/ UnwrapEv
+  \/ Lookup \/ LookupSteps \/ Interior1 \/ Interior2 \/ Centre \/ Owners \/ LocalMesh \/ MeshCells \/ MeshEnd \/ Area \/ AreaMeta \/ Boundary \/ UnwrapEv
 
 TraceSpec == TraceInit /\ [][TraceNext]_vars
 
